@@ -610,10 +610,20 @@ def replay(f):
         rm = _pool()[p['aper']]().to_mask(**kw)
         rm = [rm] if aper.isscalar else rm
         refs = [(m.data, m.bbox.iymin, m.bbox.ixmin) for m in rm]
+    d0 = d.copy()
+    e0 = None if e is None else e.copy()
+    m0 = None if mask is None else mask.copy()
     with warnings.catch_warnings():
         warnings.simplefilter('ignore')
         s, er = aper.do_photometry(d, error=e, mask=mask, **kw)
         a = aper.area_overlap(d, mask=mask, **kw)
+    if key == 'input-modified':
+        bad = not np.array_equal(d, d0, equal_nan=True) or (
+            e is not None and not np.array_equal(e, e0, equal_nan=True)) or (
+            mask is not None and not np.array_equal(mask, m0))
+        return bad, f'input modified: {bad}'
+    with warnings.catch_warnings():
+        warnings.simplefilter('ignore')
         if key in ('table', 'table-list'):
             t = aperture_photometry(d, aper, error=e, mask=mask, **kw)
             s = np.asarray(t['aperture_sum'])
